@@ -25,7 +25,7 @@ RULE = ("Also 2-4 requests in flight together on one static app object, request 
         "decorator and middleware stacks around recipes. Routing: Router tables (all convertors), nested Subpaths tables, Hosts tables with echoing leaves x generated "
         "paths/hosts. Static: Files and Pages over a sandbox tree x paths x conditional / range headers. Non-trivial = pair in which both sides produced an observation for "
         "a case that is not a bare GET /; distinct = (family, case).")
-RULE += ' Also: forms with exactly 323 / 324 / 325 parts, message cuts inside multi-byte characters, bytearray / memoryview content, client addresses (absent, IPv4, IPv6), one response object answering 2-3 requests on each interface (later answers compared as well), SSE producers slower than the ping interval (pings stripped before comparison). A context variable set by the view and read by the producer of its streaming / event-stream response; one JSON response object per interface answering twice with its content changed in place in between.'
+RULE += ' Also: forms with exactly 323 / 324 / 325 parts, message cuts inside multi-byte characters, bytearray / memoryview content, client addresses (absent, IPv4, IPv6), one response object answering 2-3 requests on each interface (later answers compared as well), SSE producers slower than the ping interval (pings stripped before comparison). A context variable set by the view and read by the producer of its streaming / event-stream response; one JSON response object per interface answering twice with its content changed in place in between. If-Range as a weak tag and as an unquoted tag; JSON bodies with NaN / Infinity / 1e400 / -0 / duplicate keys / surrounding whitespace (compared by text).'
 ASSUMPTIONS = [
     "request header names are unique and contain no underscore (WSGI cannot distinguish '_' from '-'); header values are Latin-1 without CR/LF/NUL",
     "paths are valid UTF-8 (an ASGI server decodes the path before baize sees it, a WSGI server passes the Latin-1 view of the bytes)",
